@@ -778,6 +778,27 @@ def register(M):
     def _field(interp, args, kw, node):
         return FieldSpec(default=kw.get('default'), factory=kw.get('default_factory'))
 
+    @ext('contextlib.contextmanager')
+    def _contextmanager(interp, args, kw, node):
+        from .interp import GenContext, LazyGen
+        fn = args[0]
+        if not isinstance(fn, FuncVal) or not interp.is_generator(fn.node):
+            raise AnalysisError('contextlib.contextmanager on something that is not a generator function of the repository', node)
+
+        def make(it, a, k, n):
+            g = it.call(fn, list(a), dict(k), n)
+            if not isinstance(g, LazyGen):
+                raise AnalysisError('contextlib.contextmanager needs lazy generators (VERIF_EAGER_GEN is set)', n)
+            return GenContext(g)
+        return PyCallable(make, f'contextmanager({fn.qualname})')
+
+    @ext('types.MappingProxyType')
+    def _mapping_proxy(interp, args, kw, node):
+        # a read-only live view of the mapping: reads go to the mapping itself (a write through the proxy, a TypeError in Python, is not modelled)
+        if not isinstance(args[0], dict):
+            raise AbsRaise(ExcVal('TypeError', ('mappingproxy() argument must be a mapping',)), node)
+        return args[0]
+
     @ext('functools.total_ordering')
     def _total_ordering(interp, args, kw, node):
         raise AnalysisError('functools.total_ordering not modelled', node)
